@@ -480,7 +480,9 @@ def r3(ctx: Ctx) -> None:
         all_ok = bool(outs)
         for o in outs:
             inner = [fr.node for fr in o.frames if fr.kind == "loop"][-1]
-            lp = next(n for n in lg.nodes if n.kind == "loop" and n.ast is inner)
+            lp = next((n for n in lg.nodes if n.kind == "loop" and n.ast is inner), None)
+            if lp is None:
+                raise AnalysisError("loop node of a listing append not found in the CFG")
             body = edge_target(lg, lp, "true")
             w = find_path(lg, body, [o.id], avoid=[b.id for b in brs], labels=NORMAL) if body is not None and body not in [b.id for b in brs] else None
             arg = o.ast.args[0] if isinstance(o.ast, ast.Call) and o.ast.args else o.ast
